@@ -307,14 +307,22 @@ static void do_giveback_check(const Op& op) {
       if (res > 0) sim_violation("arena_still_committed", "after everything was freed and mi_collect(true): %llu bytes of arena [0x%llx,+0x%llx) are still resident (committed)", (unsigned long long)res, (unsigned long long)a.start, (unsigned long long)a.size);
     }
   }
-  // (3) repetitions do not grow the footprint
+  // (3) repetitions do not grow the footprint. With one thread the repetitions are identical, so any growth counts; with several
+  // threads their interleaving differs from repetition to repetition (which thread's segments are abandoned or reclaimed when), so a
+  // single step up (one more arena) is not creep: the footprint must then grow at least twice to be reported
   if (!(op.a & 4)) {
+    const bool single = H.threads.size() <= 1 || sched_nthreads() <= 1;
+    size_t steps_m = 0, steps_r = 0; size_t first_m = 0, first_r = 0;
+    const bool purging = mi_option_get(mi_option_purge_delay) >= 0 && mi_option_get(mi_option_purge_decommits) != 0 && !(op.a & 2);
     for (size_t i = 2; i < H.fp_mapped.size(); i++) {
       if (H.fp_work[i] != H.fp_work[i - 1] || H.fp_work[i] != H.fp_work[0] || H.fp_work[i] == 0) continue;   // only between repetitions of the same workload
-      if (H.fp_mapped[i] > H.fp_mapped[i - 1]) sim_violation("footprint_creep", "mapped memory grows from repetition %zu to %zu: %llu -> %llu bytes", i, i + 1, (unsigned long long)H.fp_mapped[i - 1], (unsigned long long)H.fp_mapped[i]);
-      const bool purging = mi_option_get(mi_option_purge_delay) >= 0 && mi_option_get(mi_option_purge_decommits) != 0 && !(op.a & 2);
-      if (purging && H.fp_resident[i] > H.fp_resident[i - 1]) sim_violation("footprint_creep", "resident memory grows from repetition %zu to %zu: %llu -> %llu bytes", i, i + 1, (unsigned long long)H.fp_resident[i - 1], (unsigned long long)H.fp_resident[i]);
+      if (H.fp_mapped[i] > H.fp_mapped[i - 1]) { if (!steps_m) first_m = i; steps_m++; }
+      if (purging && H.fp_resident[i] > H.fp_resident[i - 1]) { if (!steps_r) first_r = i; steps_r++; }
     }
+    const size_t need = single ? 1 : 2;
+    if (steps_m >= need) { char seq[256]; size_t o = 0; for (size_t k = 0; k < H.fp_mapped.size() && o < sizeof seq - 24; k++) o += (size_t)snprintf(seq + o, sizeof seq - o, "%s%lluM", k ? "," : "", (unsigned long long)(H.fp_mapped[k] >> 20));
+      sim_violation("footprint_creep", "mapped memory grows from repetition %zu to %zu: %llu -> %llu bytes, %zu growing step(s) (after each repetition: %s)", first_m, first_m + 1, (unsigned long long)H.fp_mapped[first_m - 1], (unsigned long long)H.fp_mapped[first_m], steps_m, seq); }
+    if (steps_r >= need) sim_violation("footprint_creep", "resident memory grows from repetition %zu to %zu: %llu -> %llu bytes, %zu growing step(s)", first_r, first_r + 1, (unsigned long long)H.fp_resident[first_r - 1], (unsigned long long)H.fp_resident[first_r], steps_r);
   }
 }
 
